@@ -136,6 +136,12 @@ def make_region(rng):
 def check_region(rec, rng):
     kind, lexeme, want_tt, lefts, rights = make_region(rng)
     L, R = rng.choice(lefts), rng.choice(rights)
+    if rng.random() < 0.004:
+        # the region straddles a typical buffer size (block-wise readers)
+        T_ = rng.choice([1024, 4096, 8192, 16384, 65536])
+        pad = max(0, T_ - rng.randint(0, max(1, len(lexeme))) - len(L))
+        L = rng.choice(['\n', ' ']) * pad + L
+        rec.count('regions_straddling_a_buffer_size')
     text = L + lexeme + R
     rec.case()
     rec.monitor('opaque_region')
